@@ -406,7 +406,7 @@ class OSFS(FS):
         _src_path = self.validatepath(src_path)
         _dst_path = self.validatepath(dst_path)
         # check src_path exists and is a file
-        if self.gettype(src_path) is not ResourceType.file:
+        if self.gettype(_src_path) is not ResourceType.file:
             raise errors.FileExpected(src_path)
         # check dst_path does not exist if we are not overwriting
         if not overwrite and self.exists(_dst_path):
@@ -415,8 +415,11 @@ class OSFS(FS):
         if _src_path == _dst_path:
             raise errors.IllegalDestination(dst_path)
         # check parent dir of _dst_path exists and is a directory
-        if self.gettype(dirname(dst_path)) is not ResourceType.directory:
+        if self.gettype(dirname(_dst_path)) is not ResourceType.directory:
             raise errors.DirectoryExpected(dirname(dst_path))
+        # the destination itself must not be a directory
+        if self.isdir(_dst_path):
+            raise errors.FileExpected(dst_path)
         return _src_path, _dst_path
 
     if sys.version_info[:2] < (3, 8) and sendfile is not None:
